@@ -85,7 +85,7 @@ func runBool(c *hx.Ctx, r *hx.Rng, st *state) bool {
 	}
 	line := c.Emit(op, ans)
 	c.Count("bool:family:" + fam)
-	c.Case(op, n > 0)
+	c.Case(opKey(op), n > 0)
 	if perr != "" || err != nil {
 		c.Violation(line, "bool_encode_failure", perr+" "+bitString(vs))
 		return true
